@@ -118,6 +118,8 @@ def fresh_keys(args):
 def run(ctx: Ctx) -> None:
     thorough = ctx.tier == "thorough"
     jwkchains.execute(ctx, "C11")
+    from . import jwkheap
+    jwkheap.run(ctx, "C11")
     r = ctx.tlc("JwkImport", timeout=300)
     cases = list({json.dumps(c, sort_keys=True): c for c in r.cases}.values())
     if len(cases) < 700:
@@ -158,6 +160,9 @@ def run(ctx: Ctx) -> None:
 def replay(ctx: Ctx, rec: dict) -> None:
     from .common import _pool_init
     _pool_init()
+    if rec.get("heap"):
+        from . import jwkheap
+        return jwkheap.replay(ctx, rec)
     if "case" in rec and "hist" in rec["case"]:
         f = jwkchains.replay(rec["case"], rec["kind"], rec.get("seed", 0))
         print(json.dumps(rec["case"])[:600], "\nobserved now:", f)
